@@ -10,7 +10,8 @@ CONSTANTS NITER,       \* total number of refinement iterations of the calculati
           DumpSet, AllowASet, SymSet,
           WithB,       \* explore phase B
           AllOrders,   \* TRUE: every iteration order of the selected set; FALSE: ascending only
-          RestartIters \* values of restart_iteration explored (as offsets: -1 = latest, -2, ...; see RIters)
+          RestartIters,\* values of restart_iteration explored (as offsets: -1 = latest, -2, ...; see RIters)
+          MaxLeg       \* largest adpt_num_iter of one call of run() in phase B (small: many stops and restarts)
 
 VARIABLES phase, ref, refRet, script
 mcvars == <<phase, ref, refRet, script>>
@@ -50,14 +51,22 @@ EndA == /\ WithB /\ phase = "A" /\ pc = "idle" /\ returned # {}
         /\ UNCHANGED <<ffiles, pick, pc, mode, kl, coef, resNone, facs, it, start, nit, nkprev, rsum, rsNone, plocal, script>>
 StartB == /\ phase = "B" /\ pc = "idle" /\ returned = {}
           /\ \E p \in ParB, d \in DumpSet, n \in 0..(NITER - 1) :
-                StartFresh([par |-> p, dump |-> d, allow |-> TRUE, sym |-> mode.sym, restart |-> FALSE], n)
+                /\ n <= MaxLeg
+                /\ StartFresh([par |-> p, dump |-> d, allow |-> TRUE, sym |-> mode.sym, restart |-> FALSE], n)
           /\ UNCHANGED mcvars
-RestartB == /\ phase = "B" /\ pc = "idle" /\ returned # {} /\ mode.allow /\ start + nit < NITER
+(* back = TRUE: the restart resumes from an iteration before the latest one on disk (restart_iteration < -1 or explicit) *)
+RestartBG(back) ==
+            /\ phase = "B" /\ pc = "idle" /\ returned # {} /\ mode.allow /\ start + nit < NITER
             /\ \E p \in ParB, d \in DumpSet, a \in BOOLEAN, listing \in SetToSeqs(DOMAIN ffiles), ri \in RIters :
                  \E n \in 1..(NITER - ReadIter(listing, ri)) :
+                  /\ n <= MaxLeg
+                  /\ (ReadIter(listing, ri) < Max(DOMAIN ffiles)) = back
                   /\ (ReadIter(listing, ri) < Max(DOMAIN ffiles) => mode.sym)  \* going back without symmetry re-creates (not re-uses) the later points
                   /\ StartRestart([par |-> p, dump |-> d, allow |-> (a \/ d), sym |-> mode.sym, restart |-> TRUE], n, listing, ri)
             /\ UNCHANGED mcvars
+RestartBLatest == RestartBG(FALSE)
+RestartBBack   == RestartBG(TRUE)
+RestartB       == RestartBLatest \/ RestartBBack
 RefineB == /\ phase = "B" /\ it + start + 1 <= Len(script)
            /\ \E ord \in Orders : CellsOf(ord) = script[it + start + 1] /\ Refine(ord)
            /\ UNCHANGED mcvars
@@ -77,7 +86,7 @@ MUpdateIncr     == ~resNone /\ UpdateIntegral /\ UNCHANGED mcvars
 MSaveData       == SaveData /\ UNCHANGED mcvars
 MReturn         == Return /\ UNCHANGED mcvars
 
-MCNext == \/ StartA \/ RefineA \/ EndA \/ StartB \/ RestartB \/ RefineB
+MCNext == \/ StartA \/ RefineA \/ EndA \/ StartB \/ RestartBLatest \/ RestartBBack \/ RefineB
           \/ MBeginProcess \/ MEvalSerial \/ MEndSerial \/ MComplete \/ MWaitFull \/ MWaitTimeout \/ MCollect
           \/ MEndCollect \/ MAppendPickle \/ MUpdateFirst \/ MUpdateIncr \/ MSaveData \/ MReturn
 MCSpec == MCInit /\ [][MCNext]_allvars
@@ -92,5 +101,4 @@ RestartEquivalence ==
       /\ (pc = "idle" /\ returned # {}) => returned = ref[start + it]
 (* reachability probes (expected to be VIOLATED: TLC exhibits a state in which the situation occurs) *)
 NeverCleared   == \A i \in 1..Len(kl) : kl[i].st # "cleared"          \* "discarded" storage mode of C10
-NeverWentBack  == ~(act.name = "StartRestart" /\ start < Max(DOMAIN ffiles))
 =============================================================================
